@@ -11,6 +11,7 @@ SPEC = {
     "inject": [("apollo-parser", "src/lexer/mod.rs", "parser/lexer.rs", "verif_lexer"),
                ("apollo-parser", "src/limit.rs", "parser/limit.rs", "verif_limit"),
                ("apollo-parser", "src/lexer/cursor.rs", "parser/cursor_access.rs", "pub(crate) verif_cursor")],
+    "support": ["parser/ref_lexer.rs", "parser/lexer_prefix.rs"],
     "unsafe_checks": False,
     "cursor_access": True,
     "exhaustive": True,
